@@ -107,6 +107,19 @@ class GCPMapping:
             multipoint(self._wld.tolist(), self.crs),
         )
 
+    def __eq__(self, other) -> bool:
+        if other is self:
+            return True
+        if not isinstance(other, GCPMapping):
+            return False
+        return (
+            self._crs == other._crs
+            and np.array_equal(self._pix, other._pix)
+            and np.array_equal(self._wld, other._wld)
+        )
+
+    __hash__ = None  # type: ignore
+
     def __dask_tokenize__(self):
         return (
             "odc.geo._gcp.GCPMapping",
@@ -168,7 +181,7 @@ class GCPGeoBox(GeoBoxBase):
         return (wx, wy)
 
     def __hash__(self):
-        return hash((*self._shape, self._affine, self._crs, id(self._mapping)))
+        return hash((*self._shape, self._affine, self._crs))
 
     @property
     def linear(self) -> bool:
@@ -284,7 +297,7 @@ class GCPGeoBox(GeoBoxBase):
 
         return (
             self._shape == __o.shape
-            and self._mapping is __o._mapping
+            and self._mapping == __o._mapping
             and self._affine == __o._affine
         )
 
